@@ -24,6 +24,59 @@ from ..engines.linform import rename, swap_sigma
 METHODS = ('start', 'E', 'transitions', 'deltaE_trial', 'update')
 
 
+def _once_per_interaction(rep, mod, classes):
+    """The trial energy change adds or removes each interaction's value at most once: the statements that move
+    ``interactvalue[n]`` into the running sum sit in a loop over *distinct* interaction numbers (``range(..)``, the items /
+    keys of the dictionary of changed counts), not over the entries of a site's interaction list, which names an
+    interaction once per cluster site that lands on the supercell site (twice for a cluster that wraps onto the same site
+    in a thin cell -- ``start`` / ``update`` rely on that multiplicity for the counts)."""
+    rep.rule('energy-once-per-interaction', 'deltaE_trial visits each interaction number once when summing interaction values')
+    for ci in classes:
+        fn = ci.methods.get('deltaE_trial')
+        if fn is None:
+            raise AnalysisError('anchor vanished: %s.deltaE_trial' % ci.name)
+        q = '%s.deltaE_trial' % ci.name
+        adds = [st for st in walk_local(fn) if isinstance(st, ast.AugAssign) and isinstance(st.target, ast.Name)
+                and 'interactvalue' in unparse(st.value)]
+        if not adds:
+            rep.undecided('%s: the accumulation of interaction values was not located' % q)
+            continue
+        for st in adds:
+            idx = [x for x in ast.walk(st.value) if isinstance(x, ast.Subscript) and unparse(x.value).endswith('interactvalue')]
+            if not idx or not isinstance(idx[0].slice, ast.Name):
+                rep.undecided('%s: index of %s not a plain name' % (q, unparse(st.value)[:40]))
+                continue
+            n = idx[0].slice.id
+            # how is n bound at this statement?  innermost enclosing for-target, else an assignment in the enclosing loop body
+            lp = getattr(st, '_parent', None)
+            verdict = None
+            while lp is not None and lp is not fn:
+                if isinstance(lp, ast.For):
+                    tn = {x.id for x in ast.walk(lp.target) if isinstance(x, ast.Name)}
+                    if n in tn:
+                        it = unparse(lp.iter)
+                        if it.startswith('range(') or it.endswith(('.items()', '.keys()')) or it.startswith(('set(', 'sorted(set(', 'np.unique(', 'np.nonzero(', 'np.flatnonzero(')):
+                            verdict = (True, 'for %s in %s' % (unparse(lp.target), it))
+                        elif 'siteinteract' in it or 'interact[' in it:
+                            verdict = (False, 'for %s in %s' % (unparse(lp.target), it))
+                        break
+                    asg = [a for a in lp.body if isinstance(a, ast.Assign) and len(a.targets) == 1 and unparse(a.targets[0]) == n]
+                    if asg:
+                        v = unparse(asg[0].value)
+                        if 'siteinteract' in v:
+                            verdict = (False, '%s = %s inside for %s in %s' % (n, v, unparse(lp.target), unparse(lp.iter)))
+                        break
+                lp = getattr(lp, '_parent', None)
+            if verdict is None:
+                rep.undecided('%s: how the interaction number %s of `%s` is enumerated was not recognised' % (q, n, unparse(st)[:50]))
+                continue
+            ok, how = verdict
+            rep.ob('energy-once-per-interaction', mod, st, '%s: %s  [%s]' % (q, unparse(st), how), ok,
+                   '' if ok else 'the value is added once per entry of a site\'s interaction list: an interaction listed twice for the site (a '
+                   'cluster that wraps onto the same supercell site) is counted twice, while the reference counts it once',
+                   engine='siblings', qual=q)
+
+
 def run(model, rep, tier):
     rep.explanation = __doc__.strip()
     from ._common import caches_for
@@ -40,6 +93,7 @@ def run(model, rep, tier):
     mod = model.mod('cluster')
     jit = model.cls('cluster', 'MonteCarloSampler_jit')
     ref = model.cls('cluster', 'MonteCarloSampler')
+    _once_per_interaction(rep, mod, (ref, jit))
     spec_node = mod.constants.get('MonteCarloSamplerSpec')
     if not isinstance(spec_node, ast.List):
         raise AnalysisError('anchor vanished: MonteCarloSamplerSpec list')
